@@ -10,7 +10,9 @@ import sys
 import time
 
 VERIF = os.path.dirname(os.path.dirname(os.path.abspath(__file__)))
-EXTRA = {"C01-b": ["C14"], "C03-a": ["C01"], "C06-a": ["C05"], "C19-a": ["C01"], "C20-a": ["C14"], "C16-b": ["C14"], "C05-b": ["C14"]}
+EXTRA = {"C09-c": ["C06"], "C19-c": ["C01"], "C01-c": ["C19"], "C01-b": ["C14"], "C03-a": ["C01"], "C06-a": ["C05"], "C19-a": ["C01"], "C20-a": ["C14"], "C16-b": ["C14"], "C05-b": ["C14"]}
+NOBASE = "--no-baseline" in sys.argv  # re-verification of seeds whose baseline result is already recorded: keep the recorded baseline line
+sys.argv = [a for a in sys.argv if a != "--no-baseline"]
 ids = sys.argv[1:] or sorted(d for d in os.listdir(os.path.join(VERIF, "seeded")) if re.match(r"C\d\d-", d))
 head = subprocess.run(["git", "-C", "/repo", "rev-parse", "--short", "HEAD"], capture_output=True, text=True).stdout.strip()
 for sid in ids:
@@ -18,7 +20,7 @@ for sid in ids:
     prop = sid.split("-")[0]
     checks = [prop] + EXTRA.get(sid, [])
     t0 = time.time()
-    p = subprocess.run([os.path.join(VERIF, "tools", "seedtest.sh"), d] + checks, capture_output=True, text=True)
+    p = subprocess.run([os.path.join(VERIF, "tools", "seedtest.sh"), d] + (["--no-baseline"] if NOBASE else []) + checks, capture_output=True, text=True)
     out = p.stdout
     ver = {"repo_head": head, "command": f"tools/seedtest.sh seeded/{sid} {' '.join(checks)}", "wall_s": round(time.time() - t0), "checks": {}}
     for line in out.splitlines():
@@ -40,6 +42,8 @@ for sid in ids:
             ver["checks"][cur]["lines"].append(line[:260])
     mp = os.path.join(d, "meta.json")
     meta = json.load(open(mp))
+    if NOBASE and "baseline" not in ver and isinstance(meta.get("verification"), dict) and meta["verification"].get("baseline"):
+        ver["baseline"] = meta["verification"]["baseline"] + " (recorded by an earlier verification of the same patch)"
     meta["verification"] = ver
     json.dump(meta, open(mp, "w"), indent=1)
     print(sid, {k: v["exit"] for k, v in ver["checks"].items()}, ver.get("baseline", "")[:60], ver.get("demo_unpatched", "")[:20], "|", ver.get("demo_patched", "")[:20], flush=True)
